@@ -157,6 +157,12 @@ def check(rec, chart, tm, ticks, rcase, style):
     ok = True
     equal_seen = False
     times = {}
+    if len(ticks) % 5 == 2:
+        # the map's first questions are cut short by an asynchronous exception (timeout / Ctrl-C) which the application swallows
+        import random as _random
+
+        if harness.interrupted(lambda: [be.timestamp_at_tick_no_optimize_return(t) for t in ticks[:120]], _random.Random(len(ticks)), 5, rec):
+            rec.cls("first_queries_of_the_map_were_aborted_midway")
     for t in ticks:
         if t % 5 == 0:
             harness.distract(rec)
@@ -223,6 +229,9 @@ def check(rec, chart, tm, ticks, rcase, style):
                     rec.violation("end-before-start", f"note at tick {n.tick}: end_timestamp {n.end_timestamp} < timestamp {n.timestamp}", rcase,
                                   "note-end-before-start")
                     ok = False
+    # ... and the directly queried ticks among them: one time function for events and queries alike
+    for t in ticks[::max(1, len(ticks) // 400)]:
+        evs.append((t, times[t], "direct query"))
     evs.sort(key=lambda x: (x[0], x[1]))
     for a, b in zip(evs, evs[1:]):
         rec.ev()
@@ -261,8 +270,62 @@ def check(rec, chart, tm, ticks, rcase, style):
             rec.key([tm.res, tm.ticks, tm.ns])
 
 
+def big_map_first_use_aborted(rec, rng):
+    """A song with 3000 tempo changes; the chart is parsed afresh a few times and each time its map's very FIRST question is cut short
+    (timer signal whose handler raises, 10-400 us in) - whatever a map sets up on first use is set up here on a map large enough for the
+    abort to land inside it. The application swallows the abort and goes on asking: the sweep is then judged as always."""
+    import signal
+
+    res = 192
+    n = 3000
+    tempos = [[k * 96, gen.usable_n(90000 + (k * 7919) % 120000)] for k in range(n)]
+    text = gen.render_truth({"resolution": res, "tempos": tempos, "timesigs": [[0, 4, None]],
+                             "tracks": {"GUITAR/EXPERT": {"groups": [{"tick": t, "lanes": {"0": 0}, "open": None, "forced": False, "tap": False}
+                                                                     for t in range(0, n * 96, 9600)]}}})["text"]
+    tm = model.TempoMap(res, tempos)
+    ticks = sorted(set(list(range(0, 96 * 40, 96)) + [k * 96 + d for k in range(0, n, 37) for d in (-1, 0, 1) if k * 96 + d >= 0] + [n * 96 + 5]))
+    aborted = 0
+    for a in range(5):
+        out = harness.parse(text)
+        if not out.ok:
+            rec.ev()
+            rec.violation("well-formed-chart-rejected", harness.exc_str(out.exc), {"text": text, "ticks": ticks}, "rejected")
+            return
+        be = out.chart.sync_track.bpm_events
+
+        def handler(signum, frame):
+            raise harness._Abort("aborted")
+
+        try:
+            old = signal.signal(signal.SIGALRM, handler)
+        except (ValueError, OSError):
+            return
+        try:
+            try:
+                signal.setitimer(signal.ITIMER_REAL, rng.uniform(10e-6, 400e-6))
+                try:
+                    for t in ticks[:60]:
+                        be.timestamp_at_tick_no_optimize_return(t)
+                finally:
+                    signal.setitimer(signal.ITIMER_REAL, 0)
+            except harness._Abort:
+                aborted += 1
+            except Exception:  # noqa
+                pass
+        finally:
+            signal.signal(signal.SIGALRM, old)
+        check(rec, out.chart, tm, ticks, {"text": text, "ticks": ticks, "no_threads": True, "big_map_first_use_aborted": True}, "big_map_first_use_aborted")
+        if rec.violations:
+            return
+    if aborted:
+        rec.cls("map_of_3000_tempo_changes_whose_first_question_was_aborted")
+        rec.mon("first_questions_of_a_big_map_aborted", aborted)
+
+
 def run_shard(shard, rec, tier, seed):
     harness.setup()
+    if str(shard["name"])[-1:] in "0369":
+        big_map_first_use_aborted(rec, harness.rng_for(seed, ID, shard["name"], "big"))
     for i in range(shard["count"]):
         rng = harness.rng_for(seed, ID, shard["name"], i)
         if i % 5 == 4:
